@@ -70,6 +70,12 @@ def cases(ctx):
                             yield {'kind': 'list', 'lens': lens, 'content': cls, 'blocked': blocked,
                                    'wapi': WRITE_APIS[(k + d) % len(WRITE_APIS)], 'rapi': READ_APIS[(k + d) % 5]}
                     i += 1
+    # unblocked files that look blocked: fill bytes exactly where a 1014-blocked file has its trailers
+    for lens in ([2496], [2497], [3000], [5996], [600] * 5, [1008, 1010, 1010], [1008, 1010, 2000, 30]):
+        for wapi in ('conv', 'class_close'):
+            i += 1
+            if ctx.mine(i):
+                yield {'kind': 'list', 'lens': lens, 'content': 'fill', 'blocked': False, 'wapi': wapi, 'rapi': 'conv'}
     # the configured maximum is whatever the configuration says now: records up to a raised maximum must survive too
     for newmax in (10000, 6500, 3000):
         for blocked in (False, True):
@@ -132,6 +138,10 @@ def read_file(ctx, data, blocked, rapi):
 
     def body():
         if rapi == 'conv':
+            if not blocked:
+                # unblocked is the documented default: say nothing about blocking and it must not be guessed from the bytes
+                ctx.count('convenience reads that leave the blocked argument out')
+                return m.vbs_bytes_to_list(data)
             return m.vbs_bytes_to_list(data, blocked=blocked)
         r = m.VbsReader(io.BytesIO(data), blocked=blocked)
         if rapi == 'next_then_for':
@@ -262,6 +272,8 @@ def require(m):
     for api in WRITE_APIS:
         if not c.get('files written via ' + api):
             reasons.append('writer API %s never driven' % api)
+    if not c.get('convenience reads that leave the blocked argument out'):
+        reasons.append('convenience reader never called without the blocked argument')
     if not c.get('lists run with MAX_VBS_RECORD_LENGTH changed at run time'):
         reasons.append('configured maximum never changed at run time')
     for api in READ_APIS:
